@@ -140,7 +140,12 @@ CLAIMED = {
             "run through the real _RequestHandler (op line.C10: change attempted => shutdown; file written => "
             "device acknowledged).",
             "known findings F-10a-*; OS-level atomicity below open/write/close not modelled"),
-    "C11": ("Lean theorems: transport classification; ensure_connection is a no-op without a pending repair; "
+    "C11": ("Lean theorems: for the whole manager model, for every request line (any JSON, any command, both modes) "
+            "and every script in which each exchange is answered as the device protocol allows OR ends in a "
+            "time-out, write error or read error - at any position, any number of times - the line is answered "
+            "with an integer errorcode, no exception leaves the handler and the manager keeps running "
+            "(link_faults_never_stop: the C03 program logic with link faults admitted, Proofs/Conform*.lean `lf`); "
+            "transport classification; ensure_connection is a no-op without a pending repair; "
             "under the common handler guard a communication error yields the device-error code and raises the "
             "repair flag, a time-out yields the same code and leaves the flag; with a repair pending and a failing "
             "connect the request gets the device-error code, nothing reaches the device, and the flag stays up "
@@ -149,8 +154,12 @@ CLAIMED = {
             "the command's own events follow only if the bring-up succeeded - otherwise nothing of the command is "
             "sent (repair_precedes_command, bringup_opens_first; every device behaviour). The oracle Spec.C11.c11 is evaluated on the "
             "implementation for every fault position x kind x command x mode and on repair follow-ups / real "
-            "two-request histories.",
-            "TCP-transport faults are out of scope (the property's quantifier is over the HID link)"),
+            "two-request histories; it also requires that the repair flag is cleared only by a bring-up that ran to "
+            "its end.",
+            "that the code after a link fault is exactly the device-error code, and the flag exactly for write / "
+            "read errors, are theorems per guard (guard_comm, guard_timeout, device_code_reply) composed per handler by "
+            "the correspondence streams; TCP-transport faults are out of scope (the property's quantifier is over "
+            "the HID link)"),
     "C12": ("Lean theorems: the server class instantiated by comm/server.py (extracted from the source by the "
             "translator on every run) is socketserver.TCPServer, i.e. the `sequential` kind of the scheduler model, "
             "and its handler class processes the request inline and starts no thread / process / task on the way "
